@@ -9,6 +9,8 @@ use bumpalo::Bump;
 pub struct Shared {
     json: Vec<u8>,
     alloc: Bump,
+    #[cfg(sonic_rs_verif)]
+    pub(crate) tag: crate::verif::ArenaTag,
 }
 
 impl Shared {
